@@ -190,18 +190,29 @@ func ruleM3(c *Ctx, id string) {
 				R.Pass(id, key, P.Pos(w.Instr.Pos()), "size set to 0", "constant")
 				continue
 			}
-			// related: shares an operand with the stored value
-			leaves := bwdArith(nv)
+			// related: the compared expression depends on every parameter the stored value depends on
+			leaves := map[ssa.Value]bool{}
+			for x := range bwdArith(nv) {
+				if _, isP := x.(*ssa.Parameter); isP {
+					leaves[x] = true
+				}
+			}
 			related := func(v ssa.Value) bool {
+				got := map[ssa.Value]bool{}
 				for x := range bwdArith(stripConv(v)) {
-					if _, isC := x.(*ssa.Const); isC {
-						continue
-					}
-					if _, isP := x.(*ssa.Parameter); isP && leaves[x] {
-						return true
+					if _, isP := x.(*ssa.Parameter); isP {
+						got[x] = true
 					}
 				}
-				return false
+				if len(leaves) == 0 {
+					return false
+				}
+				for p := range leaves {
+					if !got[p] {
+						return false
+					}
+				}
+				return true
 			}
 			if guardOn(fn, w.Instr.Block(), related) {
 				R.PassNT(id, key, P.Pos(w.Instr.Pos()), "the new size is compared with MaxFileSize() before it is stored", "guard dominates in "+FuncName(fn))
